@@ -20,11 +20,11 @@ import (
 // C20 — concurrent use of clients and brokers is free of data races and panics.
 
 type c20Case struct {
-	Proto   string     `json:"proto"`      // netrpc | grpc | grpcmux
-	Threads [][]string `json:"threads"`    // one op list per goroutine
-	KillAt  int        `json:"kill_at_ms"` // a separate goroutine calls Kill after this many ms (-1: only at the end)
-	HookMs  int        `json:"hook_ms"`    // every 3rd schedule point sleeps this long (host via verifhook.Set, plugin via VERIF_HOOKS)
-	Warm    bool       `json:"warm"`       // the client is started before the goroutines begin
+	Proto   string     `json:"proto"`            // netrpc | grpc | grpcmux
+	Threads [][]string `json:"threads"`          // one op list per goroutine
+	KillAt  int        `json:"kill_at_ms"`       // a separate goroutine calls Kill after this many ms (-1: only at the end)
+	HookMs  int        `json:"hook_ms"`          // every 3rd schedule point sleeps this long (host via verifhook.Set, plugin via VERIF_HOOKS)
+	Warm    bool       `json:"warm"`             // the client is started before the goroutines begin
 	KillN   int        `json:"kill_n,omitempty"` // how many goroutines call Kill at that instant (0/1: one)
 }
 
